@@ -541,6 +541,14 @@ func (q *Query) walkExprs(fn func(*Expr)) {
 	}
 }
 
+// walkShallow visits the nodes of the expression without descending into subqueries.
+func (e *Expr) walkShallow(fn func(*Expr)) {
+	fn(e)
+	for _, a := range e.Args {
+		a.walkShallow(fn)
+	}
+}
+
 func (e *Expr) walk(fn func(*Expr)) {
 	fn(e)
 	for _, a := range e.Args {
